@@ -713,11 +713,10 @@ def rule_start_rule_priority(chk, rid):
     C = f"{P}.parse"
     if not found:
         chk.ob(rid, C, True, f"no canonical text of another shape is captured by `{first}` ({n} sentences)", pf, m, key=f"priority:{first}")
-    else:
-        wit, t = min(found.values(), key=lambda x: len(x[0]))
+    for sk, (wit, t) in sorted(found.items()):
         chk.ob(rid, C, False, f"`{wit}` is accepted (by {starts[1]}) as a query starting with a transformation segment; its canonical text `{t}` is "
                f"accepted by `{first}`, which parse() tries first and which builds a query starting with a header-less resource segment: the canonical "
-               "text denotes a different query", pf, m, key=f"priority:{first}")
+               "text denotes a different query", pf, m, key=f"priority:{first}:{sk[0]}:{sk[1]}")
 
 
 # --------------------------------------------------------------------------- C02.2
